@@ -63,7 +63,7 @@ SPEC = dict(
     extra_phases=[dict(name="tcp-wrap-placements", driver="h_tcp", corr="Corr.C14tcp", overlay=True, extra_overlay=tcp_overlay,
                        args=lambda tier, seed: ["-seed", seed, "-wrap", "-mix", "c04,c01,c05", "-n", 60 if tier == "quick" else 1500, "-events", 40],
                        search_args=lambda seed: ["-seed", seed, "-wrap", "-mix", "c04,c01", "-n", 120, "-events", 60],
-                       shard=6, timeout=2400, patterns={})],
+                       shard=4, timeout=2400, patterns={})],
     args=lambda tier, seed: ["-seed", seed, "-n", 6000 if tier == "quick" else 150000],
     search_args=lambda seed: ["-seed", seed, "-n", 40000],
     shard=8000,
